@@ -688,7 +688,7 @@ PROPS["C14"] = dict(
         K("c11", "c11_reader_dashes_contract", desc="(shared with C11) the reader tail on the dash forms: no panic", functions=["<Fen as TryFromNotation<State>>::try_from_notation (after Regex::captures)"], timeout=2400),
         K("c11", "c11_reader_clock_fields_contract", desc="(shared with C11) the reader tail on three-digit clocks: no panic, exactly the spelled numbers",
           functions=["<Fen as TryFromNotation<State>>::try_from_notation (after Regex::captures)"], timeout=2400),
-        K("uci", "c14_uci_go_args_total", kind="bounded", bound="<= 3 argument tokens of <= 5 bytes each (ASCII plus one arbitrary wide char)",
+        K("uci", "c14_uci_go_args_total", kind="bounded", bound="<= 3 argument tokens: keyword or 2 arbitrary ASCII bytes, value of <= 3 ASCII bytes, 1 more byte",
           desc="the argument parser of the `go` arm (block extracted verbatim from Client::exec, println! bound to a buffer): total on arbitrary tokens; "
           "`depth N` / `movetime N` with decimal N set exactly those limits", functions=["Client::exec, `go` argument parser (extracted)"], timeout=2400),
         K("uci", "c14_uci_token_total", desc="the UCI move-token reader (extracted verbatim) is total on every string of <= 8 "
